@@ -82,6 +82,10 @@ def ref_render(prog: M.Program, cfg, data: dict[str, Any]) -> tuple[str, Any]:
         return "err", e.args[0]
     except RecursionError:
         return "ood", "recursion"
+    except MemoryError:
+        # self-feeding growth inside loops (assign t = t | replace: ' ', t): the program
+        # has no bounded meaning; not judged, and the engine is not asked either
+        return "ood", "memory"
 
 
 # ------------------------------------------------------------------ features / shrink
@@ -204,7 +208,7 @@ def layouts(rng: random.Random, cfg) -> list[E.Layout]:
 def compare(prog: M.Program, cfg, lay: E.Layout, data: dict[str, Any]) -> dict[str, Any]:
     em = E.emit(prog, lay)  # stamps effective trims on Text nodes
     exp = ref_render(prog, cfg, data)
-    got = real_render(cfg, em.source, em.partials, data)
+    got = ("skipped", None) if exp == ("ood", "memory") else real_render(cfg, em.source, em.partials, data)
     res = {"source": em.source, "partials": em.partials, "expected": exp, "actual": got, "verdict": "agree"}
     if exp[0] == "ood":
         res["verdict"] = "ood"
@@ -254,6 +258,8 @@ def run_case(ctx: Ctx, seed: Any, j: int, tier: str, profile: Profile | None = N
         lay2 = E.Layout(random.Random(rng.random()), noisy_ws=True, alt_forms=True,
                         shorthand_indexes=cfg[2])
         for di, data in enumerate(case.datas[:1]):
+            if (plain_outputs.get(di) or ("",))[0] == "skipped":
+                continue
             em = E.emit(prog, lay2)
             got = real_render(cfg, em.source, em.partials, data)
             ctx.ev()
